@@ -5,7 +5,7 @@ PROPS = {
         "stall_is_violation": True,
         "test": "TestC01", "level": "exploration", "registered": True, "engine": "sim",
         "technique": "runtime monitor over recorded probe/request/command events of the real router in virtual time (testing/synctest), generated probe histories",
-        "level_text": "Generated probe histories x deadline placements x slots are executed against the real Router in a virtual-time bubble; an oracle over the fake targets' own logs (first accepted 2xx probe per target, arrival time of every client request) and the command result decides the property on each execution. Held-on-K-executions evidence, not a proof.",
+        "level_text": "Generated probe histories x deadline placements x slots are executed against the real Router in a virtual-time bubble; an oracle over the fake targets' own logs (first accepted 2xx probe per target, arrival time of every client request) and the command result decides the property on each execution. Held-on-K-executions evidence, not a proof. Three scenarios run in real time on loopback targets (a probe in flight when the deploy deadline passes and answered 2xx afterwards): the outcome of the command and the targets' own request counts decide, never the clock.",
         "level_note": "Trusted: go1.26.8 synctest clock and net.Pipe network, the fake targets' logs, harness generators. Ties (first success within 200ms of the deadline) are skipped and counted.",
         "shards_quick": 4, "shards_thorough": 16, "timeout": 900,
         "rule": "scenario = (old targets, 1-4 new targets each with a probe script {refuse,500,404,301,199,slow,close}^k then 200 or never, "
@@ -21,7 +21,7 @@ PROPS["C02"] = {
     "test": "TestC02", "level": "exploration", "registered": True, "engine": "sim",
     "shards_quick": 8, "shards_thorough": 16, "timeout": 900, "min_classes_quick": 60,
     "technique": "runtime monitor: hook-placed interleavings of request steps with deploy steps in virtual time; oracle over client responses",
-    "level_text": "Every client request issued around 1-5 successive redeploys is placed (arrival offset + per-request virtual delays at the route-resolved and gate-passed hooks) against the hook-delayed steps of the real deploy command; the oracle demands status 200, a marker header naming a target of the old or new generation and that target's exact body. Evidence counts the distinct (resolve,gate,claim) gap triples actually observed.",
+    "level_text": "Every client request issued around 1-5 successive redeploys is placed (arrival offset + per-request virtual delays at the route-resolved and gate-passed hooks) against the hook-delayed steps of the real deploy command; the oracle demands status 200, a marker header naming a target of the old or new generation and that target's exact body. Evidence counts the distinct (resolve,gate,claim) gap triples actually observed. One scenario runs in real time: three services are redeployed concurrently up to 500 times next to twenty bystander services while 16 clients call the router in-process; any answer that is not a target's is a violation, operators stuck for two minutes are judged from two goroutine dumps (deadlock/busy loop = violation, else inconclusive).",
     "level_note": "Trusted: synctest clock, hook placement (hooks are outside locks), fake targets. Preconditions (all targets healthy, latencies below the drain timeout) hold by construction.",
     "rule": "a class is (slot, position of route-resolved / gate-passed / claim among the 7 deploy-side hook events); non-trivial = at least one request step fell strictly inside the deploy; requests generated on a grid arrival x d1 x d2",
     "assumptions": ["targets of both generations always healthy and faster than the drain timeout", "go1.26.8 synctest"],
@@ -133,7 +133,7 @@ PROPS["C16"] = {
     "test": "TestC16", "level": "exploration", "registered": True, "engine": "sim",
     "shards_quick": 8, "shards_thorough": 16, "timeout": 900,
     "technique": "runtime monitor: policy table recomputed from the final set of services (reference routing of C04) judges plain and TLS requests, redirect targets and certificate decisions, across build orders and restore",
-    "level_text": "Configurations of root-path services (TLS off / static certificate with and without redirect / automatic) and sub-path services over exact, wildcard and default hosts are built in different orders (random, sub-path first, root TLS flipped after the sub-path exists, root removed, restored from the state file). Plain requests (Host with ports, paths with encoded octets and //evil prefixes, hostile queries) must get exactly 301 to https://host-without-port + raw path + raw query without reaching a target when the effective policy is TLS+redirect, and be forwarded otherwise; requests over a real TLS handshake on the in-memory listener must fail the handshake for names without a TLS-enabled root-path service, get 503 from services whose effective TLS is off and be forwarded otherwise; GetCertificate is also called directly; automatic TLS with a wildcard host must be refused; no connection to the ACME directory may be attempted when no automatic-TLS service exists.",
+    "level_text": "Configurations of root-path services (TLS off / static certificate with and without redirect / automatic) and sub-path services over exact, wildcard and default hosts are built in different orders (random, sub-path first, root TLS flipped after the sub-path exists, root removed, restored from the state file). Plain requests (Host with ports, paths with encoded octets and //evil prefixes, hostile queries) must get exactly 301 to https://host-without-port + raw path + raw query without reaching a target when the effective policy is TLS+redirect, and be forwarded otherwise; requests over a real TLS handshake on the in-memory listener must fail the handshake for names without a TLS-enabled root-path service, get 503 from services whose effective TLS is off and be forwarded otherwise; GetCertificate is also called directly; automatic TLS with a wildcard host must be refused; no connection to the ACME directory may be attempted when no automatic-TLS service exists. One scenario runs in real time (8 clients, 6 operators deploying and removing other services, 4 s): every plain-HTTP request to a sub-path service below a TLS+redirect root is answered by the redirect.",
     "level_note": "Trusted: reference routing, harness-generated static certificate. Automatic-TLS issuance cannot run offline: for ACME services only the refusal of unbound names is decided. IPv6-literal Host headers are not generated (redirect target not fixed by the statement).",
     "rule": "a class is (build order, kind of decision observed: redirect / plain forwarded / handshake refused / 503 over TLS / forwarded over TLS, root or sub-path service)",
     "assumptions": ["multi-host sub-path services are not generated (the statement says 'its host')"],
@@ -143,7 +143,7 @@ PROPS["C13"] = {
     "test": "TestC13", "level": "exploration", "registered": True, "engine": "sim",
     "shards_quick": 8, "shards_thorough": 16, "timeout": 900,
     "technique": "runtime monitor: byte-level comparison of the client's send log with the echo target's receive log (and vice versa) through the full handler chain",
-    "level_text": "Generated requests (10 methods incl. unknown ones, paths over pchar with valid %XX escapes, encoded slashes, repeated and trailing slashes, the prefix as a later segment and the bare prefix, raw queries with unparseable pairs, header sets of 0-30 headers with repeated names, empty values, obs-text and 8 KiB values, bodies to 256 KiB with either framing, client-supplied X-Forwarded-*, X-Request-ID, X-Request-Start, over plain and TLS connections) are sent as raw bytes through the real server chain to a raw echo target that records exactly what it received and answers a generated response (22 statuses, multi-valued headers, bodies to 200 KB, three framings, gzip only if the request it received asks for it). Oracle: equality of method, path (less the literal prefix when stripping), raw query, Host, every end-to-end header's value list, body; forwarding headers per the stated policy; X-Request-ID kept or fresh and unique; status, every target header's value list and body bytes on the way back; no header added.",
+    "level_text": "Generated requests (10 methods incl. unknown ones, paths over pchar with valid %XX escapes, encoded slashes, repeated and trailing slashes, the prefix as a later segment and the bare prefix, raw queries with unparseable pairs, header sets of 0-30 headers with repeated names, empty values, obs-text and 8 KiB values, bodies to 256 KiB with either framing, client-supplied X-Forwarded-*, X-Request-ID, X-Request-Start, over plain and TLS connections) are sent as raw bytes through the real server chain to a raw echo target that records exactly what it received and answers a generated response (22 statuses, multi-valued headers, bodies to 200 KB, three framings, gzip only if the request it received asks for it). Oracle: equality of method, path (less the literal prefix when stripping), raw query, Host, every end-to-end header's value list, body; forwarding headers per the stated policy; X-Request-ID kept or fresh and unique; status, every target header's value list and body bytes on the way back; no header added. One scenario runs in real time (32 clients, the whole handler chain in-process, about 100 000 requests): the X-Request-Id values collected at two loopback targets are unique, never missing, and the client's own where it sent one.",
     "level_note": "Trusted: raw reader/writer of the harness. Excluded by rule: hop-by-hop headers, header-name case, Content-Length vs chunked framing, optional whitespace around header values, headers net/http adds when the target sent none (Date, Content-Type, Content-Length). Harness stdlib is go1.26.8 (production go1.24.2).",
     "rule": "a class is (service kind, method, escapes in path, query present, body present, chunked, status class, response framing)",
     "assumptions": ["paths within RFC 3986 pchar + valid escapes; absolute-form targets and OPTIONS * not generated"],
